@@ -813,16 +813,35 @@ func (vc *VC) pureFuncAxiom(st *State, fn *ssa.Function, fval Term, binds []Term
 			sink(fmt.Sprintf("(forall (%s) (! (= %s %s) :pattern (%s)))", strings.Join(bound, " "), pp, and(pre...), pp))
 		}
 	}
-	if def == nil {
-		return
-	}
-	body := e.tr(def)
 	ap := app(vc.applyFun(sig, nil), ts...)
 	var ax Term
-	if len(bound) == 0 {
-		ax = eq(ap, body.T)
+	if def != nil {
+		body := e.tr(def)
+		if len(bound) == 0 {
+			ax = eq(ap, body.T)
+		} else {
+			ax = fmt.Sprintf("(forall (%s) (! (= %s %s) :pattern (%s)))", strings.Join(bound, " "), ap, body.T, ap)
+		}
 	} else {
-		ax = fmt.Sprintf("(forall (%s) (! (= %s %s) :pattern (%s)))", strings.Join(bound, " "), ap, body.T, ap)
+		// no defining equation: every postcondition holds of the application term whenever the precondition holds
+		rv := TV{T: ap, S: goSType(sig.Results().At(0).Type())}
+		e.vars["result"] = rv
+		e.vars["result0"] = rv
+		var pre, post []Term
+		for _, r := range c.Requires {
+			pre = append(pre, vc.trClause(e, r))
+		}
+		for _, en := range c.Ensures {
+			post = append(post, vc.trClause(e, en))
+		}
+		if len(post) == 0 {
+			return
+		}
+		if len(bound) == 0 {
+			ax = implies(and(pre...), and(post...))
+		} else {
+			ax = fmt.Sprintf("(forall (%s) (! (=> %s %s) :pattern (%s)))", strings.Join(bound, " "), and(pre...), and(post...), ap)
+		}
 	}
 	sink(ax)
 	vc.usedTrusted["pure-definition "+shortFuncKey(key)+" (proved on its body)"] = true
